@@ -31,6 +31,8 @@ func main() {
 	caps := flag.Bool("caps", false, "debug: print the capability matrix")
 	bank := flag.Bool("bank", false, "debug: print bank call sites")
 	explain := flag.String("explain", "", "print a violation file")
+	variant := flag.String("variant", "", "self-test: analyse the named reference variant (in-memory overlay, shadow output)")
+	selftest := flag.String("selftest", "auto", "self-test with reference variants: on|off|auto (auto = thorough tier only)")
 	flag.Parse()
 	if *explain != "" {
 		b, err := os.ReadFile(*explain)
@@ -58,6 +60,38 @@ func main() {
 	if *tier == "thorough" {
 		pt = prog.Thorough
 		guard.MaxHelperDepth = 4
+	}
+	if *variant != "" {
+		ps, err := loadPositives(*verif)
+		if err != nil {
+			fmt.Println("UNDECIDED", err)
+			os.Exit(2)
+		}
+		found := false
+		for i := range ps {
+			if ps[i].ID == *variant {
+				ov, _, oerr := overlayFor(*repo, &ps[i])
+				if oerr != nil {
+					fmt.Println("UNDECIDED variant does not apply:", oerr)
+					os.Exit(2)
+				}
+				prog.Overlay = ov
+				found = true
+			}
+		}
+		if !found {
+			fmt.Println("UNDECIDED unknown variant", *variant)
+			os.Exit(2)
+		}
+	}
+	doSelf := *selftest == "on" || (*selftest == "auto" && *tier == "thorough")
+	if v := os.Getenv("VERIF_SELFTEST"); v == "0" {
+		doSelf = false
+	} else if v == "1" {
+		doSelf = true
+	}
+	if *variant != "" {
+		doSelf = false
 	}
 	p, err := prog.Load(*repo, pt)
 	if err != nil {
@@ -112,6 +146,7 @@ func main() {
 		run.Start = t0
 		run.Eff = et
 		run.VerifDir = *verif
+		run.Shadow = *variant != ""
 		if rerr != nil {
 			run.Undecide("roots", "roots|discovery", "", rerr.Error())
 		}
@@ -123,6 +158,9 @@ func main() {
 			}()
 			chk(run)
 		}()
+		if doSelf {
+			selfTest(run, *repo, *verif)
+		}
 		if c := run.Finish(); c > exit {
 			exit = c
 		}
